@@ -34,14 +34,14 @@ def run_job(job):
         storage = labtech.storage.LocalStorage(os.path.join(tmpd, 'st'))
     rig = VirtRig(cfg, job.get('schedule') or [], shape_seed=job.get('shape_seed', 0), beh=_beh(job.get('beh')),
                   int_lines=job.get('int_lines'), count_lines=job.get('count_lines', False), storage=storage,
-                  prior=job.get('prior'))
+                  prior=job.get('prior'), progress=job.get('progress', False))
     try:
         trace = rig.run()
     finally:
         if tmpd:
             import shutil
             shutil.rmtree(tmpd, ignore_errors=True)
-    out = monitor.to_monitor(job['id'], cfg, trace, caller_pid=os.getpid(), ctxkeys=ctxkeys_for(cfg))
+    out = monitor.to_monitor(job['id'], cfg, trace, caller_pid=os.getpid(), ctxkeys=ctxkeys_for(cfg), tnames=rig.tnames)
     out['meta'] = {'skipped': rig.skipped, 'defaulted': rig.defaulted, 'lines': rig.line_count,
                    'ints': rig.ints_done, 'events': len(trace),
                    'ctor': sorted(set(rig.process_ctor_methods)), 'ctxm': sorted(set(m or '' for m in rig.ctx_methods))}
